@@ -53,7 +53,7 @@ const NSv = "/infra/services/"
 
 var nIPs = []string{"10.1.1.10", "10.1.1.20", "10.1.2.30", "10.1.2.40", "10.2.0.0/16", "192.168.1.0/24", "10.9.9.9"}
 var nSvcs = []NSvc{{"Netspoc-tcp_80", "TCP", "80"}, {"Netspoc-tcp_22", "TCP", "22"}, {"Netspoc-udp_123", "UDP", "123"},
-	{"Netspoc-icmp_8", "ICMP", "8"}, {"Netspoc-proto_50", "IP", "50"}}
+	{"Netspoc-icmp_8", "ICMP", "8"}, {"Netspoc-proto_50", "IP", "50"}, {"Netspoc-icmp_0", "ICMP", "0"}, {"Netspoc-icmp", "ICMP", ""}}
 
 func (c *NConf) clone() *NConf {
 	n := &NConf{}
@@ -289,7 +289,16 @@ func DeriveNsxDevice(t *tape.Tape, b *NConf) (*NConf, []string) {
 		case 7: // service definition differs
 			if len(a.Services) > 0 {
 				j := t.Next(len(a.Services))
-				a.Services[j].Port = "8080"
+				switch {
+				case a.Services[j].Proto == "ICMP" && a.Services[j].Port == "":
+					a.Services[j].Port = "0"
+				case a.Services[j].Proto == "ICMP" && a.Services[j].Port == "0":
+					a.Services[j].Port = ""
+				case a.Services[j].Proto == "ICMP":
+					a.Services[j].Port = "0"
+				default:
+					a.Services[j].Port = "8080"
+				}
 				ops = append(ops, "service "+a.Services[j].ID+" differs on device")
 			}
 		case 8: // left-over objects
@@ -468,9 +477,12 @@ func (s NSvc) JSON() map[string]any {
 		e = map[string]any{"id": "id", "resource_type": "L4PortSetServiceEntry", "l4_protocol": s.Proto,
 			"destination_ports": []any{s.Port}, "source_ports": []any{}}
 	case "ICMP":
-		var typ int
-		fmt.Sscanf(s.Port, "%d", &typ)
-		e = map[string]any{"id": "id", "resource_type": "ICMPTypeServiceEntry", "protocol": "ICMPv4", "icmp_type": typ}
+		e = map[string]any{"id": "id", "resource_type": "ICMPTypeServiceEntry", "protocol": "ICMPv4"}
+		if s.Port != "" { // no type: any ICMP
+			var typ int
+			fmt.Sscanf(s.Port, "%d", &typ)
+			e["icmp_type"] = typ
+		}
 	default:
 		var num int
 		fmt.Sscanf(s.Port, "%d", &num)
